@@ -42,6 +42,10 @@ fn replay(prop: &str, file: &str) -> i32 {
             "walk" => props_fs::replay_walk(&case, prop),
             "depthwalk" => props_links::replay_depthwalk(&case),
             "prune" => props_fs::replay_prune(&case),
+            "bytes" => {
+                println!("re-run `./check C14`: the non-UTF-8 phase is a fixed world");
+                false
+            },
             "faultwalk" => props_links::replay_faultwalk(&case),
             "stack" => props_stack::replay_stack(&case, prop),
             "partition-programs" => props_stack::replay_partition_programs(&case),
